@@ -2203,3 +2203,48 @@ CASES += [
         b /= 2;
     }"""),
 ]
+
+SLE = "src/serialize/ser_logical_expr.rs"
+CASES += [
+    # ------------------------------------------------------------------ UV (pre-emptive, from the coverage listing)
+    dict(name="uv-ite-else-branch-skipped", file=SLE, rule="UV", props=["C17", "C19"], expect="unique_variables:visits-every-subformula",
+         old="""                .collect::<HashSet<&String>>()
+                .union(&c.unique_variables())
+                .cloned()
+                .collect::<HashSet<&String>>(),""",
+         new="""                .collect::<HashSet<&String>>(),"""),
+    dict(name="uv-intersection-for-union", file=SLE, rule="UV", props=["C17", "C19"], expect="unique_variables:visits-every-subformula",
+         old="""                .union(&b.unique_variables())
+                .cloned()
+                .collect::<HashSet<&String>>(),
+            LogicalSExpr::Ite(a, b, c) => a""",
+         new="""                .intersection(&b.unique_variables())
+                .cloned()
+                .collect::<HashSet<&String>>(),
+            LogicalSExpr::Ite(a, b, c) => a"""),
+    dict(name="uv-xor-left-only", file=SLE, rule="UV", props=["C17", "C19"], expect="unique_variables:visits-every-subformula",
+         old="""            | LogicalSExpr::Iff(a, b)
+            | LogicalSExpr::Xor(a, b) => a""",
+         new="""            | LogicalSExpr::Iff(a, b) => a
+                .unique_variables()
+                .union(&b.unique_variables())
+                .cloned()
+                .collect::<HashSet<&String>>(),
+            LogicalSExpr::Xor(a, _b) => a.unique_variables(),
+            LogicalSExpr::Xor(a, b) => a"""),
+    dict(name="uv-extend-loop-ok", file=SLE, rule="UV", props=["C17", "C19"], expect=None,
+         old="""            LogicalSExpr::Ite(a, b, c) => a
+                .unique_variables()
+                .union(&b.unique_variables())
+                .cloned()
+                .collect::<HashSet<&String>>()
+                .union(&c.unique_variables())
+                .cloned()
+                .collect::<HashSet<&String>>(),""",
+         new="""            LogicalSExpr::Ite(a, b, c) => {
+                let mut vars = a.unique_variables();
+                vars.extend(b.unique_variables());
+                vars.extend(c.unique_variables());
+                vars
+            }"""),
+]
